@@ -11,6 +11,18 @@ ALL = [f"C{n:02d}" for n in range(1, 21)]
 
 # property -> (technique, level text, level note, design ref)
 CHECKS = {
+    "C10": (
+        "canonical-form isomorphism oracle + query battery + detachment probe on every nrpickler round trip (6 protocols x 2 loaders x same/fresh interpreter x caching flags), deep graphs dumped under a lowered recursion limit",
+        "Runtime monitor: object graphs (end states of random histories, spec families, run-time attributes incl. shared and cyclic containers, chains of 1000-10000 vertices) are dumped with nrpickler and loaded with pickle/dill in this and in a fresh interpreter; the canonical form (first-visit numbering: classes, uids, attributes, every ordered relation, sharing) and a fixed query battery must agree, no object may be shared with the original, and mutating the copy must not move the original.",
+        "Trusted: egverif/canon.py; CPython 3.12 + dill 0.4.1; sizes up to 10^4 (dumps is quadratic).",
+        "DESIGN.md 4/C10",
+    ),
+    "C13": (
+        "callback fault injection at every invocation index of every callback of every read-only entry point, bracketed by deep before/after snapshots (accessors + vars() names + public attribute values) and a repeat-call oracle",
+        "Fault enumeration: for each graph and each of 16 read-only entry points a counting run measures how often each callback is invoked; for every k the callback raises at its k-th invocation, after which the deep snapshot must equal the one before the call and a repeated call with the same, now well-behaved callable must give the fault-free answer (caching on and off).",
+        "Trusted: snapshot code; attribute names containing 'cache' are ignored; callbacks are pure apart from the injected fault.",
+        "DESIGN.md 4/C13",
+    ),
     "C05": (
         "twin execution (differential oracle): the same recorded history run with caching forced off and run following its flag/pickle schedule, logs compared op by op; cache hits observed through the public statistics",
         "Runtime monitor: histories interleaving every mutator with neighbors/find_links/traversal/search/render queries, cache-flag toggles, same-process nrpickler reloads and fresh-interpreter continuations are executed twice on the real code; every query result (or exception type) of the scheduled run must equal the caching-off run. After each mutation all keys queried so far are re-queried so no stale entry stays unread; the run counts cache hits observed after mutations, per mutator kind.",
@@ -121,7 +133,7 @@ CHECKS = {
     ),
 }
 
-NOT_YET = "check not built yet (work in progress; see DESIGN.md section 4)"
+NOT_YET = "not claimed"
 
 
 def main():
